@@ -7,7 +7,11 @@ import CnlDriver.C13
 * integers: the canonical numeral in the requested base — `numeralValue` = value, no leading zero;
 * scaled_integer: `decimalValue` has the sign of the value, never exceeds its magnitude and is short of it
   by less than one unit of the last printed digit — plus, only if the exact expansion has more than 18
-  significant digits (or does not terminate), the precision allowance `|v|·(|e|+1)·100/max(significand type)`;
+  significant digits (or does not terminate), the precision allowance `|v|·(|e|+1)·u/max(significand type)` with
+  `u = 100` for the radixes 2…10 and `u = 10·radix` above (theorem `C14.descale_invariant`: each lossy division costs
+  at most `10·max(radix,10)/max` of the value; at most `|e|+1` divisions are lossy for the radixes 2…10
+  (`C14.descale_lossy_count`), and above ten the losses of the divisions that precede one multiplication
+  sum to less than `10·radix/max`, each significand being ten times the next);
   and it is exact whenever the exact expansion has at most 18 significant digits and its shortest
   fixed or scientific text fits the buffer;
 * `fix` lines: `to_chars_static`, `to_string`, `operator<<` show the text of `to_chars` at capacity
@@ -55,7 +59,7 @@ def tcScDenotes (T : IntTy) (e : Int) (radix : Nat) (rep : Int) (len : Nat) (tex
     else
       let (num, den) := exactFrac rep.natAbs radix e
       let short := tcShortExpansion num den
-      let allowNum := if short then 0 else (e.natAbs + 1) * 100
+      let allowNum := if short then 0 else (e.natAbs + 1) * (if radix ≤ 10 then 100 else 10 * radix)
       (d.neg == decide (rep < 0)) && d.within num den allowNum (sigTy T).max.toNat &&
         (!(tcExactDemanded num den (decide (rep < 0)) len) || d.exactly num den)
 
@@ -76,8 +80,8 @@ def c14Fixb (m tag cls br : String) (base : Nat) (v : Int) (res : String) : Opti
       | some n => some (tcIntDenotes base v (arr.take n) && (arr.drop n).all (· == Char.ofNat 0) && decide (arr.length > n))
       | none => none
     | _ => none    -- no text produced: C13's concern
-  let mn := tag == "most_negative_integer"
-  some { model := m, spec := if mn then some false else spec, cls := if mn then cls else "", branch := br, nontrivial := spec.isSome }
+  let _ := tag; let _ := cls
+  some { model := m, spec := spec, cls := "", branch := br, nontrivial := spec.isSome }
 
 def checkC14 (toks : List String) (res : String) : Option Verdict := do
   let (m, tag, br) ← evalCharconv toks
@@ -88,7 +92,7 @@ def checkC14 (toks : List String) (res : String) : Option Verdict := do
     let _ := T
     let spec : Option Bool :=
       if tag.isEmpty then (tcImplText len res).map (tcIntDenotes base v)
-      else some false   -- the most negative value produces no numeral at all
+      else some false
     some { model := m, spec := spec, cls := cls, branch := br, nontrivial := spec.isSome }
   | ["sc", t, len, rep] =>
     let .sc T e x ← parseTcTyK t | none
